@@ -49,7 +49,7 @@ impl SMode {
 }
 
 /// How the schedule of one scenario execution is decided.
-#[derive(Clone, Debug)]
+#[derive(Clone, Debug, Serialize, Deserialize)]
 pub enum Plan {
     /// fresh: every process draws its decisions from streams split off the run seed
     Seeded,
@@ -126,7 +126,7 @@ pub struct Violation {
     pub detail: String,
 }
 
-#[derive(Clone, Debug)]
+#[derive(Clone, Debug, Serialize, Deserialize)]
 pub struct Outcome {
     pub violation: Option<Violation>,
     pub traces: Vec<Vec<u16>>,
@@ -426,6 +426,46 @@ fn total_len(t: &[Vec<u16>]) -> usize {
 
 /// Shrink scenario, then schedule, while the same violation class persists.
 pub fn minimise<S: Scenario>(sc: &S, out: &Outcome, budget_ms: u64) -> (S, Outcome, MinStats) {
+    minimise_with(sc, out, budget_ms, &|c: &S, p: &Plan| c.execute(p))
+}
+
+/// One execution in a fresh OS process (`sim --exec-one`): nothing of the program under test
+/// (statics, thread-locals of the OS thread) is carried over from earlier executions.
+pub fn execute_isolated<S: Scenario>(sc: &S, plan: &Plan) -> Outcome {
+    use std::sync::atomic::{AtomicU64, Ordering};
+    static N: AtomicU64 = AtomicU64::new(0);
+    let none = Outcome { violation: None, traces: vec![], log_hash: 0, history_hash: 0, nontrivial: false, diverged: true, stats: RunStats::default() };
+    let file = format!("{}/exec-{}.json", crate::c20::scratch_base(), N.fetch_add(1, Ordering::SeqCst));
+    let req = json!({ "scenario": serde_json::to_value(sc).unwrap(), "plan": serde_json::to_value(plan).unwrap() });
+    if std::fs::write(&file, req.to_string()).is_err() {
+        return none;
+    }
+    let exe = std::env::current_exe().expect("current exe");
+    let st = std::process::Command::new(exe).arg("--exec-one").arg(S::PROP).arg(&file).stdin(std::process::Stdio::null()).status();
+    let res = std::fs::read_to_string(format!("{file}.out")).ok().and_then(|t| serde_json::from_str::<Outcome>(&t).ok());
+    let _ = std::fs::remove_file(&file);
+    let _ = std::fs::remove_file(format!("{file}.out"));
+    match (st, res) {
+        (Ok(st), Some(o)) if st.success() => o,
+        _ => none,
+    }
+}
+
+/// `--exec-one <prop> <file>`
+pub fn exec_one_main<S: Scenario>(file: &str) -> i32 {
+    let Ok(text) = std::fs::read_to_string(file) else { return 2 };
+    let Ok(v) = serde_json::from_str::<Value>(&text) else { return 2 };
+    let (Ok(sc), Ok(plan)) = (serde_json::from_value::<S>(v["scenario"].clone()), serde_json::from_value::<Plan>(v["plan"].clone())) else { return 2 };
+    watchdog::arm(watchdog::hang_limit_s(), Box::new(|| std::process::exit(3)));
+    let out = sc.execute(&plan);
+    watchdog::disarm();
+    if std::fs::write(format!("{file}.out"), serde_json::to_string(&out).unwrap()).is_err() {
+        return 2;
+    }
+    0
+}
+
+pub fn minimise_with<S: Scenario>(sc: &S, out: &Outcome, budget_ms: u64, exec: &dyn Fn(&S, &Plan) -> Outcome) -> (S, Outcome, MinStats) {
     let class = out.violation.as_ref().unwrap().class.clone();
     let start = Instant::now();
     let mut best = sc.clone();
@@ -452,14 +492,14 @@ pub fn minimise<S: Scenario>(sc: &S, out: &Outcome, budget_ms: u64) -> (S, Outco
             let mut found = None;
             // first try to carry the schedule over (tolerant replay), then fresh schedules
             let o = if fair_only {
-                cand.execute(&Plan::Seeded)
+                exec(&cand, &Plan::Seeded)
             } else {
-                cand.execute(&Plan::Replay { traces: best_out.traces.clone(), strict: false })
+                exec(&cand, &Plan::Replay { traces: best_out.traces.clone(), strict: false })
             };
             if same(&o) {
                 found = Some(o);
             } else if !fair_only {
-                let o = cand.execute(&Plan::Seeded);
+                let o = exec(&cand, &Plan::Seeded);
                 if same(&o) {
                     found = Some(o);
                 }
@@ -491,7 +531,7 @@ pub fn minimise<S: Scenario>(sc: &S, out: &Outcome, budget_ms: u64) -> (S, Outco
                     for j in i..end {
                         cand[p][j] = tr[i - 1];
                     }
-                    let o = best.execute(&Plan::Replay { traces: cand, strict: false });
+                    let o = exec(&best, &Plan::Replay { traces: cand, strict: false });
                     let shorter_or_fewer = switches(&o.traces) < switches(&best_out.traces)
                         || total_len(&o.traces) < total_len(&best_out.traces);
                     if same(&o) && shorter_or_fewer {
@@ -511,7 +551,7 @@ pub fn minimise<S: Scenario>(sc: &S, out: &Outcome, budget_ms: u64) -> (S, Outco
         }
     }
     // the stored trace is the one actually executed; make sure it replays strictly
-    let strict = best.execute(&Plan::Replay { traces: best_out.traces.clone(), strict: true });
+    let strict = exec(&best, &Plan::Replay { traces: best_out.traces.clone(), strict: true });
     if same(&strict) && !strict.diverged {
         best_out = strict;
     }
@@ -584,6 +624,46 @@ struct ShardSummary {
     violation_indices: Vec<u64>,
     known_hits: BTreeMap<String, (u64, u64)>,
     stopped_on_wall: bool,
+    /// Some(i): this worker process saw a violation that a fresh process does not show - state
+    /// of the program under test (a `static`) was carried over from an earlier simulated process.
+    /// It stopped; a fresh worker process continues the shard at index i.
+    #[serde(default)]
+    continue_at: Option<u64>,
+}
+
+/// exit code of a worker that asks to be replaced by a fresh process (see `continue_at`)
+pub const WORKER_REPLACE_ME: i32 = 4;
+/// exit code of `--confirm` when the run shows a violation
+pub const CONFIRMED: i32 = 10;
+
+/// `--confirm <prop> <tier> <seed> <index>`: one run in a fresh process
+pub fn confirm_main<S: Scenario>(tier: Tier, base_seed: u64, idx: u64) -> i32 {
+    let limit = watchdog::hang_limit_s();
+    watchdog::arm(limit, Box::new(move || std::process::exit(CONFIRMED)));
+    let (_sc, out) = run_one::<S>(base_seed, tier, idx);
+    watchdog::disarm();
+    if out.violation.is_some() {
+        CONFIRMED
+    } else {
+        0
+    }
+}
+
+/// Does index i show a violation when it is the first simulated process of a fresh OS process?
+fn confirmed_in_fresh_process<S: Scenario>(tier: Tier, base_seed: u64, i: u64) -> bool {
+    let exe = std::env::current_exe().expect("current exe");
+    let st = std::process::Command::new(exe)
+        .arg("--confirm")
+        .arg(S::PROP)
+        .arg(tier.name())
+        .arg(base_seed.to_string())
+        .arg(i.to_string())
+        .stdin(std::process::Stdio::null())
+        .status();
+    match st {
+        Ok(st) => st.code() != Some(0),
+        Err(_) => true,
+    }
 }
 
 fn write_u64s(path: &str, v: &[u64]) {
@@ -612,7 +692,8 @@ pub fn run_one<S: Scenario>(base_seed: u64, tier: Tier, i: u64) -> (S, Outcome) 
 /// Parallelism is across worker *processes*: simulated processes allocate and
 /// free many stacks, and doing that from 16 threads of one address space
 /// serialises on the kernel's mmap lock.
-pub fn worker_main<S: Scenario>(tier: Tier, base_seed: u64, runs: u64, shard: u64, of: u64, max_wall_s: f64, dir: &str) -> i32 {
+#[allow(clippy::too_many_arguments)]
+pub fn worker_main<S: Scenario>(tier: Tier, base_seed: u64, runs: u64, shard: u64, of: u64, max_wall_s: f64, dir: &str, from: u64, part: u64) -> i32 {
     let start = Instant::now();
     let known = load_known_findings(S::PROP);
     let stop_file = format!("{dir}/STOP");
@@ -620,7 +701,7 @@ pub fn worker_main<S: Scenario>(tier: Tier, base_seed: u64, runs: u64, shard: u6
     let mut hist: Vec<u64> = vec![];
     let mut nontriv: Vec<u64> = vec![];
     let mut sched: Vec<u64> = vec![];
-    let mut i = shard;
+    let mut i = from.max(shard);
     let mut n = 0u64;
     while i < runs {
         if n % 64 == 0 {
@@ -678,6 +759,12 @@ pub fn worker_main<S: Scenario>(tier: Tier, base_seed: u64, runs: u64, shard: u6
                 let e = sum.known_hits.entry(sig).or_insert((0, i));
                 e.0 += 1;
                 e.1 = e.1.min(i);
+            } else if n > 1 && !confirmed_in_fresh_process::<S>(tier, base_seed, i) {
+                // not a property of this run: a fresh process does not show it. A simulated
+                // process must start from fresh statics; this OS process no longer provides that.
+                sum.stats.probe("violations_seen_only_with_static_state_carried_over_from_earlier_runs_discarded", 1);
+                sum.continue_at = Some(i + of);
+                break;
             } else {
                 sum.violation_indices.push(i);
                 if sum.violation_indices.len() >= 2 {
@@ -688,10 +775,16 @@ pub fn worker_main<S: Scenario>(tier: Tier, base_seed: u64, runs: u64, shard: u6
         }
         i += of;
     }
-    write_u64s(&format!("{dir}/shard-{shard}.hist"), &hist);
-    write_u64s(&format!("{dir}/shard-{shard}.nontriv"), &nontriv);
-    write_u64s(&format!("{dir}/shard-{shard}.sched"), &sched);
-    std::fs::write(format!("{dir}/shard-{shard}.json"), serde_json::to_string(&sum).unwrap()).expect("write shard summary");
+    // wall-clock budget of the shard as a whole
+    let left = (max_wall_s - start.elapsed().as_secs_f64()).max(1.0);
+    write_u64s(&format!("{dir}/shard-{shard}-{part}.hist"), &hist);
+    write_u64s(&format!("{dir}/shard-{shard}-{part}.nontriv"), &nontriv);
+    write_u64s(&format!("{dir}/shard-{shard}-{part}.sched"), &sched);
+    std::fs::write(format!("{dir}/shard-{shard}-{part}.json"), serde_json::to_string(&sum).unwrap()).expect("write shard summary");
+    if let Some(next) = sum.continue_at {
+        let _ = std::fs::write(format!("{dir}/shard-{shard}.next"), format!("{next} {} {left}", part + 1));
+        return WORKER_REPLACE_ME;
+    }
     0
 }
 
@@ -703,8 +796,8 @@ pub fn search<S: Scenario>(cfg: &SearchCfg) -> SearchReport<S> {
     let exe = std::env::current_exe().expect("current exe");
     let of = cfg.workers.max(1) as u64;
     let mut children = vec![];
-    for k in 0..of {
-        let child = std::process::Command::new(&exe)
+    let spawn_worker = |k: u64, wall: f64, from: u64, part: u64| {
+        std::process::Command::new(&exe)
             .arg("--worker")
             .arg(S::PROP)
             .arg(cfg.tier.name())
@@ -712,19 +805,42 @@ pub fn search<S: Scenario>(cfg: &SearchCfg) -> SearchReport<S> {
             .arg(cfg.runs.to_string())
             .arg(k.to_string())
             .arg(of.to_string())
-            .arg(format!("{}", cfg.max_wall_s))
+            .arg(format!("{wall}"))
             .arg(&dir)
+            .arg(from.to_string())
+            .arg(part.to_string())
             .stdin(std::process::Stdio::null())
             .spawn()
-            .expect("spawn worker process");
-        children.push((k, child));
+            .expect("spawn worker process")
+    };
+    for k in 0..of {
+        children.push((k, spawn_worker(k, cfg.max_wall_s, 0, 0)));
     }
+    let mut parts: Vec<u64> = vec![1; of as usize];
     let mut harness_errors = vec![];
     let mut hung: Vec<(u64, String, String)> = vec![];
     let mut hung_shards: Vec<u64> = vec![];
     for (k, mut c) in children {
+      loop {
         let pid = c.id();
-        match c.wait() {
+        let res = c.wait();
+        let _ = std::fs::remove_dir_all(format!("/dev/shm/verif-sim-{pid}"));
+        match res {
+            Ok(st) if st.code() == Some(WORKER_REPLACE_ME) => {
+                // the worker asks for a fresh process to continue its shard
+                let t = std::fs::read_to_string(format!("{dir}/shard-{k}.next")).unwrap_or_default();
+                let f: Vec<&str> = t.split_whitespace().collect();
+                if f.len() == 3 && parts[k as usize] < 100_000 {
+                    let (from, part, left) = (f[0].parse().unwrap_or(u64::MAX), f[1].parse().unwrap_or(1), f[2].parse().unwrap_or(1.0));
+                    parts[k as usize] = part + 1;
+                    if !std::path::Path::new(&format!("{dir}/STOP")).exists() {
+                        c = spawn_worker(k, left, from, part);
+                        continue;
+                    }
+                } else {
+                    harness_errors.push(format!("worker {k} asked to be replaced but left no continuation record"));
+                }
+            }
             Ok(st) if st.success() => {}
             Ok(st) if st.code() == Some(3) => {
                 if let Ok(t) = std::fs::read_to_string(format!("{dir}/shard-{k}.hung")) {
@@ -739,7 +855,8 @@ pub fn search<S: Scenario>(cfg: &SearchCfg) -> SearchReport<S> {
             Ok(st) => harness_errors.push(format!("worker {k} ended with {st}")),
             Err(e) => harness_errors.push(format!("worker {k}: {e}")),
         }
-        let _ = std::fs::remove_dir_all(format!("/dev/shm/verif-sim-{pid}"));
+        break;
+      }
     }
     let mut stats = RunStats::default();
     let mut histories: HashSet<u64> = HashSet::new();
@@ -750,12 +867,12 @@ pub fn search<S: Scenario>(cfg: &SearchCfg) -> SearchReport<S> {
     let mut known_hits: BTreeMap<String, (u64, u64)> = BTreeMap::new();
     let mut done = 0u64;
     let mut stopped = false;
-    for k in 0..of {
-        let js = std::fs::read_to_string(format!("{dir}/shard-{k}.json"));
+    for (k, part) in (0..of).flat_map(|k| (0..parts[k as usize]).map(move |p| (k, p))) {
+        let js = std::fs::read_to_string(format!("{dir}/shard-{k}-{part}.json"));
         let sum: ShardSummary = match js.ok().and_then(|t| serde_json::from_str(&t).ok()) {
             Some(s) => s,
             None => {
-                if !hung_shards.contains(&k) {
+                if !hung_shards.contains(&k) && part == 0 {
                     harness_errors.push(format!("worker {k} left no summary"));
                 }
                 continue;
@@ -771,9 +888,9 @@ pub fn search<S: Scenario>(cfg: &SearchCfg) -> SearchReport<S> {
             e.0 += v.0;
             e.1 = e.1.min(v.1);
         }
-        histories.extend(read_u64s(&format!("{dir}/shard-{k}.hist")));
-        nontrivial.extend(read_u64s(&format!("{dir}/shard-{k}.nontriv")));
-        schedules.extend(read_u64s(&format!("{dir}/shard-{k}.sched")));
+        histories.extend(read_u64s(&format!("{dir}/shard-{k}-{part}.hist")));
+        nontrivial.extend(read_u64s(&format!("{dir}/shard-{k}-{part}.nontriv")));
+        schedules.extend(read_u64s(&format!("{dir}/shard-{k}-{part}.sched")));
     }
     let _ = std::fs::remove_dir_all(&dir);
     if !harness_errors.is_empty() {
@@ -968,7 +1085,7 @@ pub fn reporter_main<S: Scenario>(tier: Tier, base_seed: u64, idx: u64) -> i32 {
     {
         let path = path.clone();
         watchdog::arm(
-            limit + budget_ms as f64 / 1000.0,
+            limit + 2.5 * budget_ms as f64 / 1000.0,
             Box::new(move || {
                 out!("minimisation did not come back; keeping the unminimised replay file");
                 out!("VIOLATION property={} replay={}", S::PROP, path);
@@ -976,7 +1093,20 @@ pub fn reporter_main<S: Scenario>(tier: Tier, base_seed: u64, idx: u64) -> i32 {
             }),
         );
     }
-    let (msc, mout, ms) = minimise(&sc, &out, budget_ms);
+    let (mut msc, mut mout, mut ms) = minimise(&sc, &out, budget_ms);
+    {
+        // the minimiser ran many executions in this one OS process; its result only counts if a
+        // fresh process shows the same violation under the stored schedule
+        let class = out.violation.as_ref().unwrap().class.clone();
+        let again = execute_isolated(&msc, &Plan::Replay { traces: mout.traces.clone(), strict: true });
+        if again.violation.as_ref().map(|v| &v.class) != Some(&class) || again.diverged {
+            out!("the minimised scenario does not reproduce in a fresh process (state carried over between executions of the minimiser); minimising again with one fresh process per candidate");
+            let r = minimise_with(&sc, &out, budget_ms, &|c: &S, p: &Plan| execute_isolated(c, p));
+            msc = r.0;
+            mout = r.1;
+            ms = r.2;
+        }
+    }
     watchdog::disarm();
     let path = write_replay(&msc, &mout, base_seed, idx, &ms);
     let mv = mout.violation.as_ref().unwrap();
